@@ -203,9 +203,10 @@ func init() {
 		ID: "C10",
 		Explanation: "Decides structural necessary conditions of 'patterns denote their documented sets': INTERVAL(digit): hexval/octval, evaluated abstractly on a partition of the rune line, return exactly the digit value on digit ranges and -1 elsewhere. INTERVAL(accumulator): every digit accumulation loop in parseEscape has a constant trip count that fits 31 bits or a range check inside the loop (no int32 wrap-around). " +
 			"GUARD(fold): Unicode fold tables are appended only under opts.Fold. GUARD(invrange): a two-bound class range is inserted only after hi < lo was rejected. DTX(negation): \\p-negation = (letter is P) XOR (leading ^). LOOPSHAPE(fold-orbit): the SimpleFold orbit loop leaves only through its header. DTX(rune-fold): in bytes mode a rune above 0x7f is never folded (it must stay a single rune to become a byte literal). MUSTPASS(class-order): a bracket class is built as ranges, minus subtractions, then folded, then complemented. INPLACE(write-behind-read): the in-place range filters (charset.subtract/invert and the other out := r[:0] loops of lex and compiler) never append past the read cursor while sharing the input's array (finite abstraction of len(out)-i, comparisons between them decided exactly). LOCKSTEP(offset-column): a regexp error narrowed inside the pattern moves Offset and Column by the same amount. " +
-			"Not decided: the denotation of well-formed patterns in general (set algebra on ranges, quantifiers, parentheses). GLOBALS: packages compiler and lex keep no mutable package-level state (sync.Map and similar containers included), so what a pattern denotes cannot depend on patterns compiled earlier in the process under other options. FIELDCOV(rebuild) as in C01: a struct rebuilt from another of the same type carries every field over (the CharsetOptions handed to named patterns keep Fold).",
-		Rules: []string{"INTERVAL(digit)", "INTERVAL(accumulator)", "GUARD(fold)", "GUARD(invrange)", "DTX(negation)", "LOOPSHAPE(fold-orbit)", "DTX(rune-fold)", "MUSTPASS(class-order)", "LOCKSTEP(offset-column)", "INPLACE(write-behind-read)", "GLOBALS", "FIELDCOV(rebuild)"},
+			"Not decided: the denotation of well-formed patterns in general (set algebra on ranges, quantifiers, parentheses). GLOBALS: packages compiler and lex keep no mutable package-level state (sync.Map and similar containers included), so what a pattern denotes cannot depend on patterns compiled earlier in the process under other options. FIELDCOV(rebuild) as in C01: a struct rebuilt from another of the same type carries every field over (the CharsetOptions handed to named patterns keep Fold). AGREE(fold-table): appendNamedSet folds a named Unicode class with the companion table of the table the class was found in (FoldCategory for Categories, FoldScript for Scripts).",
+		Rules: []string{"INTERVAL(digit)", "INTERVAL(accumulator)", "GUARD(fold)", "GUARD(invrange)", "DTX(negation)", "LOOPSHAPE(fold-orbit)", "DTX(rune-fold)", "MUSTPASS(class-order)", "LOCKSTEP(offset-column)", "INPLACE(write-behind-read)", "GLOBALS", "FIELDCOV(rebuild)", "AGREE(fold-table)"},
 		Run: func(c *Ctx) {
+			ruleFOLDTABLE(c)
 			ruleREBUILD(c, "syntax", "compiler", "grammar", "lalr")
 			ruleCLASSORDER(c)
 			ruleINPLACE(c, "lex", "compiler")
@@ -247,9 +248,10 @@ func init() {
 		ID: "C11",
 		Explanation: "Decides structural necessary conditions of 'generated Go lexers tokenize as specified': AGREE(hash): the keyword hash computed by the generator (gen.stringHash) uses the multiplier and the scan unit (rune in rune mode, byte in bytes mode) of the hash the generated lexer accumulates. LINECOL/CURSOR/PROGRESS as in C12 (positions, line and column of each token). FIELDCOV(checkpoint) + CODEC(lexdfa) writer side as in C09 (the tables the lexer is generated from). " +
 			"RESET(checkpoint): the checkpoint does not survive a restart. CODEC(runemap): generated mapRune and lex.CompressedMap agree that entries cover [lo, hi). " +
-			"Not decided: token sequences as such; byte-mode and large-Unicode-map template branches are not instantiated by any shipped lexer. PAIR(checkpoint): backupRule, backupOffset and backupHash are recorded together. CONSTAGREE(reserved-tokens): canInlineRules skips as many reserved RuleToken entries as the token floor below which a rule prevents inlining (an explicit invalid_token rule is never inlined, so its match is not mistaken for \"nothing matched\"). LINECOL also rejects a line start computed from source[:l.offset] when l.offset is assigned afterwards (rewind). GUARD(eoi-cycle): generate() refuses tables with a cycle of end-of-input transitions (the scanners feed EOI without consuming, so only the absence of such a cycle makes them terminate at the end of input). TMPL(field-maintain): in go_lexer.go.tmpl, whenever line/lineOffset is declared, its update at a newline and its recomputation in rewind() are generated too (guard formulas, all truth assignments) - tokenColumn without tokenLine keeps correct columns. GUARD(comment-single-line): the constant text of a pattern is tested for line breaks before it becomes the token's line comment (otherwise the generated token enum gains a stray constant and the following token values shift). DTX(rune-fold) as in C10 (caseInsensitive folds a standalone rune however it is spelled). LOSTWRITE(range-copy) as in C09 (the rule-to-token conversion of an inlined lexer reaches Backtrack[i] itself).",
-		Rules: []string{"AGREE(hash)", "LINECOL", "CURSOR", "PROGRESS", "FIELDCOV(checkpoint)", "CODEC(lexdfa)", "PAIR(checkpoint)", "CODEC(runemap)", "RESET(checkpoint)", "CONSTAGREE(reserved-tokens)", "GUARD(eoi-cycle)", "TMPL(field-maintain)", "GUARD(comment-single-line)", "DTX(rune-fold)", "LOSTWRITE(range-copy)"},
+			"Not decided: token sequences as such; byte-mode and large-Unicode-map template branches are not instantiated by any shipped lexer. PAIR(checkpoint): backupRule, backupOffset and backupHash are recorded together. CONSTAGREE(reserved-tokens): canInlineRules skips as many reserved RuleToken entries as the token floor below which a rule prevents inlining (an explicit invalid_token rule is never inlined, so its match is not mistaken for \"nothing matched\"). LINECOL also rejects a line start computed from source[:l.offset] when l.offset is assigned afterwards (rewind). GUARD(eoi-cycle): generate() refuses tables with a cycle of end-of-input transitions (the scanners feed EOI without consuming, so only the absence of such a cycle makes them terminate at the end of input). TMPL(field-maintain): in go_lexer.go.tmpl, whenever line/lineOffset is declared, its update at a newline and its recomputation in rewind() are generated too (guard formulas, all truth assignments) - tokenColumn without tokenLine keeps correct columns. GUARD(comment-single-line): the constant text of a pattern is tested for line breaks before it becomes the token's line comment (otherwise the generated token enum gains a stray constant and the following token values shift). DTX(rune-fold) as in C10 (caseInsensitive folds a standalone rune however it is spelled). LOSTWRITE(range-copy) as in C09 (the rule-to-token conversion of an inlined lexer reaches Backtrack[i] itself). AGREE(fold-table) as in C10.",
+		Rules: []string{"AGREE(hash)", "LINECOL", "CURSOR", "PROGRESS", "FIELDCOV(checkpoint)", "CODEC(lexdfa)", "PAIR(checkpoint)", "CODEC(runemap)", "RESET(checkpoint)", "CONSTAGREE(reserved-tokens)", "GUARD(eoi-cycle)", "TMPL(field-maintain)", "GUARD(comment-single-line)", "DTX(rune-fold)", "LOSTWRITE(range-copy)", "AGREE(fold-table)"},
 		Run: func(c *Ctx) {
+			ruleFOLDTABLE(c)
 			ruleLOSTWRITE(c, "lex", "compiler")
 			ruleRUNEFOLD(c)
 			ruleRUNEMAP(c)
